@@ -20,6 +20,13 @@ def run(ctx):
     if not ok:
         raise Undecided("Apalache refutes the threshold lemma of the specification (model-level)")
     ctx.cover["apalache"] = "DrawLemma.Inv (Struct /\\ Fwd /\\ Bwd) holds for all n in [1,2^32), all v,q,r: NoError"
+    # the Draw machine itself at width 32: an inductive invariant (holds after any number of rejected words)
+    ok0, _ = ctx.apalache("DrawApa", inv="IndInv", length=0, init="Init")
+    ok1, _ = ctx.apalache("DrawApa", inv="IndInv", length=1, init="IndInv")
+    if not (ok0 and ok1):
+        raise Undecided("Apalache refutes the inductive invariant of the width-32 Draw machine (model-level)")
+    ctx.cover["apalache_machine"] = ("DrawApa.IndInv is inductive at width 32 (symbolic bound and words): result in [0,n) and = word mod n, result only "
+                                     "after an accepted word, rejected words are exactly those >= Threshold, powers of two never reject")
     # (b) the real code: directed draws
     nsh = 4 if quick else 12
     info = ctx.drv_json("draw", "-seed", ctx.seed, "-tier", ctx.tier, "-out", ctx.path("draw.ndjson"), "-shards", nsh)
